@@ -517,6 +517,11 @@ def execute(scn, prefix=(), base_order='fifo', keep_world=False):
 
             def emit(self, event):
                 w.park({'kind': 'yield'})
+                typ = getattr(event.eventType, 'name', str(event.eventType))
+
+                if (ms := (lin.get('emit_ms') or {}).get(typ)):      # a slow lineage backend: the request takes virtual time
+                    w.sleep(ms / 1000)
+
                 w.log.append({'ev': 'lineage', 'f': self.name, 't': w.now, 'type': getattr(event.eventType, 'name', str(event.eventType)),
                               'run': runids.setdefault(event.run.runId, len(runids)), 'by': w.current.name})
 
